@@ -79,6 +79,42 @@ type c27State struct {
 	faults  map[[3]int]string
 	log     []string
 	anomaly []string
+	// concurrent op: backends hold their replies until sub-requests of BOTH clients have arrived
+	barrier  bool
+	seen     [2]bool
+	bothSeen chan struct{}
+}
+
+// c27Client: topics 0,1 belong to client 0, topics 2,3 to client 1 (concurrent op only).
+func c27ClientOf(t int) int {
+	if t >= 2 {
+		return 1
+	}
+	return 0
+}
+
+func (s *c27State) arrive(t int) {
+	s.mu.Lock()
+	var wait chan struct{}
+	if s.barrier {
+		s.seen[c27ClientOf(t)] = true
+		if s.seen[0] && s.seen[1] {
+			select {
+			case <-s.bothSeen:
+			default:
+				close(s.bothSeen)
+			}
+		} else {
+			wait = s.bothSeen
+		}
+	}
+	s.mu.Unlock()
+	if wait != nil {
+		select {
+		case <-wait:
+		case <-time.After(40 * time.Millisecond):
+		}
+	}
 }
 
 var c27 = &c27State{}
@@ -177,6 +213,9 @@ func c27Conn(idx int, conn net.Conn) {
 		c27.log = append(c27.log, fmt.Sprintf("b%d|%s", idx, sub))
 		codes := c27.codes
 		c27.mu.Unlock()
+		if len(tps) > 0 {
+			c27.arrive(tps[0].t)
+		}
 		if noReply {
 			continue
 		}
@@ -337,6 +376,96 @@ func c27Encode(req kmsg.Request, corr int32) []byte {
 	return formatter.AppendRequest(nil, req, corr)[4:]
 }
 
+// c27Send builds one produce / fetch request, sends it through the real routing path with the
+// given per-client pool and returns the decoded reply entries (and checks the correlation id).
+func c27Send(ctx context.Context, p *proxy, pool *connPool, kind string, v int16, entries [][2]interface{}, corr int32) string {
+	var payload []byte
+	if kind == "P" {
+		req := kmsg.NewPtrProduceRequest()
+		req.Version = v
+		req.Acks = -1
+		req.TimeoutMillis = 1000
+		for _, e := range entries {
+			rt := kmsg.NewProduceRequestTopic()
+			rt.Topic = c27TopicName(e[0].(int))
+			for _, pn := range e[1].([]int) {
+				rp := kmsg.NewProduceRequestTopicPartition()
+				rp.Partition = int32(pn)
+				rp.Records = []byte(fmt.Sprintf("rec-%d-%d", e[0].(int), pn))
+				rt.Partitions = append(rt.Partitions, rp)
+			}
+			req.Topics = append(req.Topics, rt)
+		}
+		payload = c27Encode(req, corr)
+	} else {
+		req := kmsg.NewPtrFetchRequest()
+		req.Version = v
+		req.MaxWaitMillis = 10
+		req.MinBytes = 1
+		req.MaxBytes = 1 << 20
+		for _, e := range entries {
+			rt := kmsg.NewFetchRequestTopic()
+			rt.Topic = c27TopicName(e[0].(int))
+			rt.TopicID = c27TopicID(e[0].(int))
+			for _, pn := range e[1].([]int) {
+				rp := kmsg.NewFetchRequestTopicPartition()
+				rp.Partition = int32(pn)
+				rp.FetchOffset = int64(100*e[0].(int)) + int64(pn)
+				rp.PartitionMaxBytes = 1 << 20
+				rt.Partitions = append(rt.Partitions, rp)
+			}
+			req.Topics = append(req.Topics, rt)
+		}
+		payload = c27Encode(req, corr)
+	}
+	header, _, err := protocol.ParseRequestHeader(payload)
+	if err != nil {
+		return "bad-op"
+	}
+	var respBytes []byte
+	if kind == "P" {
+		respBytes, err = p.handleProduceRouting(ctx, header, payload, pool)
+	} else {
+		respBytes, err = p.handleFetchRouting(ctx, header, payload, pool)
+	}
+	if err != nil {
+		return "err"
+	}
+	if len(respBytes) < 4 || int32(binary.BigEndian.Uint32(respBytes)) != corr {
+		c27.note(fmt.Sprintf("reply carries correlation id %x, request had %d", respBytes[:4], corr))
+	}
+	var es []string
+	if kind == "P" {
+		resp, err := parseProduceResponse(respBytes, v)
+		if err != nil {
+			return "undecodable"
+		}
+		for _, t := range resp.Topics {
+			for _, pr := range t.Partitions {
+				es = append(es, fmt.Sprintf("%d:%d=%d/%d", c27TopicOfName(t.Topic), pr.Partition, pr.ErrorCode, pr.BaseOffset))
+			}
+		}
+	} else {
+		resp, err := parseFetchResponse(respBytes, v)
+		if err != nil {
+			return "undecodable"
+		}
+		for _, t := range resp.Topics {
+			tn := c27TopicOfName(t.Topic)
+			if v >= 13 {
+				tn = c27TopicOfID(t.TopicID)
+			}
+			for _, pr := range t.Partitions {
+				es = append(es, fmt.Sprintf("%d:%d=%d/%d", tn, pr.Partition, pr.ErrorCode, pr.HighWatermark))
+			}
+		}
+	}
+	if len(es) == 0 {
+		return "-"
+	}
+	return strings.Join(es, ",")
+}
+
 func c27Main() {
 	w := bufio.NewWriter(os.Stdout)
 	defer w.Flush()
@@ -442,6 +571,100 @@ func c27Main() {
 				p.setReady(true)
 				pool = newConnPool(2 * time.Second)
 				return "ok"
+			case "C":
+				// C <P|F ...> || <P|F ...> : two clients (own connection pools, as handleConnection gives
+				// them) send at the same time through the same proxy; client 0 uses topics 0-1, client 1
+				// topics 2-3; the backends hold their replies until both clients' sub-requests have arrived.
+				if p == nil {
+					return "bad-op"
+				}
+				var parts [][]string
+				cur := []string{}
+				for _, w := range f[1:] {
+					if w == "||" {
+						parts = append(parts, cur)
+						cur = []string{}
+					} else {
+						cur = append(cur, w)
+					}
+				}
+				parts = append(parts, cur)
+				if len(parts) != 2 {
+					return "bad-op"
+				}
+				c27.mu.Lock()
+				c27.recv = map[c27TP]int{}
+				c27.codes = map[[3]int]int{}
+				c27.faults = map[[3]int]string{}
+				for _, part := range parts {
+					for k, val := range c27ParseScript(c27KV(part, "code")) {
+						c27.codes[k] = c27Int(val)
+					}
+					for k, val := range c27ParseScript(c27KV(part, "fault")) {
+						c27.faults[k] = val
+					}
+				}
+				c27.log = nil
+				c27.anomaly = nil
+				c27.barrier = true
+				c27.seen = [2]bool{}
+				c27.bothSeen = make(chan struct{})
+				c27.mu.Unlock()
+				replies := make([]string, 2)
+				var wg sync.WaitGroup
+				for i, part := range parts {
+					corr++
+					wg.Add(1)
+					go func(i int, part []string, corr int32) {
+						defer wg.Done()
+						defer func() {
+							if r := recover(); r != nil {
+								replies[i] = fmt.Sprintf("panic_%v", r)
+							}
+						}()
+						cp := newConnPool(2 * time.Second)
+						defer cp.Close()
+						replies[i] = c27Send(ctx, p, cp, part[0], int16(c27Int(c27KV(part, "v"))), c27ParseEntries(c27KV(part, "req")), corr)
+					}(i, part, corr)
+				}
+				wg.Wait()
+				c27.mu.Lock()
+				c27.barrier = false
+				logAll := append([]string(nil), c27.log...)
+				anomalies := append([]string(nil), c27.anomaly...)
+				c27.mu.Unlock()
+				route := "-"
+				if p.router != nil {
+					var rs []string
+					for _, r := range p.router.AllRoutes() {
+						rs = append(rs, fmt.Sprintf("%d:%d=%s", c27TopicOfName(r.Topic), r.Partition, r.BrokerID))
+					}
+					sort.Strings(rs)
+					if len(rs) > 0 {
+						route = strings.Join(rs, ",")
+					}
+				}
+				var outs []string
+				for i := range parts {
+					var mine []string
+					for _, l := range logAll {
+						sub := l[strings.Index(l, "|")+1:]
+						t := c27Int(strings.SplitN(sub, ":", 2)[0])
+						if c27ClientOf(t) == i {
+							mine = append(mine, l)
+						}
+					}
+					recv := "-"
+					if len(mine) > 0 {
+						recv = strings.Join(mine, ",")
+					}
+					res := fmt.Sprintf("reply=%s recv=%s route=%s", replies[i], recv, route)
+					if len(anomalies) > 0 {
+						res += " anomaly=" + strings.ReplaceAll(strings.Join(anomalies, ";"), " ", "_")
+					}
+					outs = append(outs, res)
+				}
+				return strings.Join(outs, " || ")
 			case "P", "F", "A":
 				if p == nil {
 					return "bad-op"
